@@ -34,7 +34,7 @@ func cmdManifest() int {
 			"technique":           d.Technique,
 		})
 	}
-	var na []any
+	na := []any{}
 	for i := 1; i <= 20; i++ {
 		id := fmt.Sprintf("C%02d", i)
 		if _, ok := defs[id]; ok {
